@@ -90,6 +90,9 @@ type renderGroup struct {
 	MName    string        `json:"manifest_name"`
 	Files    []renderFile  `json:"files"`
 	Phases   []renderPhase `json:"phases"`
+	// pkg.Files (path -> content digest) before and after the template stage
+	Before map[string]string `json:"files_before"`
+	After  map[string]string `json:"files_after"`
 }
 
 type renderObs struct {
@@ -120,6 +123,15 @@ func freshFiles(in map[string]string) packages.Files {
 	out := packages.Files{}
 	for k, v := range in {
 		out[k] = []byte(v)
+	}
+	return out
+}
+
+func digestFiles(files packages.Files) map[string]string {
+	out := map[string]string{}
+	for p, c := range files {
+		sum := sha256.Sum256(c)
+		out[p] = hex.EncodeToString(sum[:8])
 	}
 	return out
 }
@@ -257,6 +269,7 @@ func renderOnce(ctx context.Context, sc *renderScenario) (g renderGroup) {
 	rctx := packages.PackageRenderContext{
 		Package: tmplCtx.Package, Config: configuration, Images: images, Environment: env,
 	}
+	before := digestFiles(pkg.Files)
 	// deployer.go:188-199
 	inst, err := packages.RenderPackageInstance(ctx, pkg, rctx,
 		packages.VerifNamespacedPackageValidators(), packages.DefaultObjectValidators)
@@ -280,6 +293,7 @@ func renderOnce(ctx context.Context, sc *renderScenario) (g renderGroup) {
 	}
 	sort.Strings(paths)
 	g.Files, g.Manifest = []renderFile{}, []string{}
+	g.Before, g.After = before, digestFiles(pkg.Files)
 	for _, p := range paths {
 		rf := renderFile{Path: p, Objs: []renderObj{}}
 		idxs, present := filtered[p]
